@@ -283,6 +283,13 @@ def run_file(ctx, rnd):
             s = getattr(m, c["fn"][0])(ds)
         except Exception as e:
             ctx.case(key, nt)
+            import re as _re
+
+            if isinstance(e, ValueError) and "helper-named-like-a-registered-function" in c["feats"] and _re.search(r"Error processing function call .* on function h\d+ ", str(e)):
+                # (as below: the helper could not be pasted, stays a call by name, and that name is registered for ANOTHER function -
+                # the call is checked against the registered signature, here with a refusal; the registry's business)
+                ctx.count("not-judged:left-by-name-under-a-name-registered-for-another-function")
+                continue
             ctx.violation(f"exc:{type(e).__name__}@{astx.repo_frame(e, REPO)}", f"{c['text']}: {type(e).__name__}: {str(e)[:160]} | helpers: {witness['helpers']}", witness)
             continue
         lam = s.query_ast.args[1]
